@@ -17,9 +17,15 @@ package main
 //            (slice holding a map holding a slice) | irnode (an
 //            ast.DisjunctionType value, which cog itself stores in hints)
 //   fill     wellformed: of the kind pointers of ast.Type only the one of its
-//            kind is set; saturated: all of them (every exported field
-//            non-nil); sparse: optional pointers nil, slices/maps rotate
-//            through nil, empty and short
+//            kind is set; slices have two elements and spare capacity;
+//            saturated: all kind pointers (every exported field non-nil);
+//            sparse: optional pointers nil, slices/maps rotate through nil,
+//            empty and short; nilled: EVERY optional pointer, slice, map and
+//            `any` is nil; emptied: EVERY pointer is non-nil and points to a
+//            struct filled the same way, every slice is empty WITH spare
+//            capacity (what tools.Filter leaves behind), every map is empty
+//            non-nil, every `any` holds an empty list
+//   payload  ... | exotic (typed slices and maps, a pointer to an IR node)
 //
 // The only knowledge about ast.Type is the convention that links Kind to the
 // pointer field of the same name (kindField); a pointer field that is not in
@@ -97,6 +103,8 @@ func c18New(t reflect.Type, s c18Shape) (reflect.Value, *c18Filler) {
 }
 
 func (f *c18Filler) sparse() bool    { return f.shape.Fill == "sparse" }
+func (f *c18Filler) nilled() bool    { return f.shape.Fill == "nilled" }
+func (f *c18Filler) emptied() bool   { return f.shape.Fill == "emptied" }
 func (f *c18Filler) saturated() bool { return f.shape.Fill == "saturated" }
 
 // sliceLen: two elements near the root, one further down (keeps builders of a few thousand cells)
@@ -131,7 +139,20 @@ func (f *c18Filler) payload() any {
 		}
 		return float64(n) + 0.5
 	}
+	if f.emptied() {
+		return make([]any, 0, 2)
+	}
 	switch kind {
+	case "exotic":
+		// dynamic types the parsers do not produce but Go code may store: typed containers, a pointer
+		strs := make([]string, 1, 3)
+		strs[0] = fmt.Sprintf("s%d", f.next())
+		ints := make([]int64, 1, 2)
+		ints[0] = int64(f.next())
+		ref := &verifapi.RefType{ReferredPkg: fmt.Sprintf("s%d", f.next()), ReferredType: fmt.Sprintf("s%d", f.next())}
+		out := make([]any, 4, 6)
+		out[0], out[1], out[2], out[3] = strs, map[string][]int64{fmt.Sprintf("k%d", f.next()): ints}, ref, scalar()
+		return out
 	case "scalar":
 		return scalar()
 	case "slice":
@@ -185,7 +206,7 @@ func (f *c18Filler) fill(v reflect.Value, chain []string, sat int) {
 			f.fail("cannot fill interface type %s", t)
 			return
 		}
-		if f.sparse() && f.next()%2 == 0 {
+		if f.nilled() || (f.sparse() && f.next()%2 == 0) {
 			return
 		}
 		v.Set(reflect.ValueOf(f.payload()))
@@ -194,7 +215,7 @@ func (f *c18Filler) fill(v reflect.Value, chain []string, sat int) {
 			f.fillObjectMap(v, chain, sat)
 			return
 		}
-		if f.sparse() && !f.mandatoryPtr {
+		if (f.sparse() || f.nilled()) && !f.mandatoryPtr {
 			return
 		}
 		f.mandatoryPtr = false
@@ -216,6 +237,12 @@ func (f *c18Filler) fill(v reflect.Value, chain []string, sat int) {
 			return
 		}
 		n, c := f.sliceLen(), 2*f.sliceLen()
+		if f.nilled() {
+			return
+		}
+		if f.emptied() {
+			n, c = 0, 2
+		}
 		if f.sparse() {
 			switch f.next() % 4 {
 			case 0:
@@ -239,6 +266,12 @@ func (f *c18Filler) fill(v reflect.Value, chain []string, sat int) {
 		v.Set(s)
 	case reflect.Map:
 		n := 2
+		if f.nilled() {
+			return
+		}
+		if f.emptied() {
+			n = 0
+		}
 		if f.sparse() {
 			switch f.next() % 3 {
 			case 0:
@@ -336,6 +369,9 @@ func (f *c18Filler) fillObjectMap(v reflect.Value, chain []string, sat int) {
 	n := 2
 	if f.sparse() {
 		n = f.next() % 2
+	}
+	if f.nilled() || f.emptied() {
+		n = 0
 	}
 	for i := 0; i < n; i++ {
 		o := reflect.New(c18TypeOfObject).Elem()
